@@ -64,6 +64,7 @@ type Frame struct {
 	frameTargetsCache map[string][]frameTarget
 	preHeaps  map[int]Heap // loop header -> heap on loop entry
 	lockAtHead map[int][2]string // loop header -> lock-held arrays at the head
+	heapOutCur Heap
 }
 
 type loopInfo struct {
